@@ -329,7 +329,7 @@ end Reconnect
 
 namespace Reconnect.E2E
 open ConnScript
-open Spec.Reconnect (outcomeAt anyConnects callClauses nextSt evClauses liveAfter clauses holds isResp)
+open Spec.Reconnect (outcomeAt anyConnects callClauses nextSt evClauses liveAfter clauses holds isResp served)
 
 /-- How the model state, the scripted world and the oracle's view hang together at a quiescent
 point of an end-to-end run. -/
@@ -356,16 +356,17 @@ end Reconnect.E2E
 
 namespace Reconnect.E2E
 open ConnScript
-open Spec.Reconnect (outcomeAt anyConnects callClauses nextSt evClauses liveAfter clauses holds isResp)
+open Spec.Reconnect (outcomeAt anyConnects callClauses nextSt evClauses liveAfter clauses holds isResp served)
 
-/-- One call at a quiescent point: every clause of the oracle holds for what the model does, and
-the invariant is re-established. -/
-theorem call_step (outs : List Outcome) (r : R) (w : World) (s : Spec.Reconnect.St)
+/-- One call of any kind at a quiescent point: every clause of the oracle holds for what the model
+does, and the invariant is re-established. -/
+theorem callK_step (outs : List Outcome) (r : R) (w : World) (s : Spec.Reconnect.St) (k : CallKind)
     (h : Inv outs r w s) :
-    (callClauses outs s (callRes true w (serve r (answersFor w r)).2.2)
+    (callClauses outs s k (resK k (callRes true w (serve r (answersFor w r)).2.2))
         (serve r (answersFor w r)).1.made).all (·.2) = true ∧
-    Inv outs (serve r (answersFor w r)).1 (w.after r (serve r (answersFor w r)).1)
-      (nextSt (callRes true w (serve r (answersFor w r)).2.2) (serve r (answersFor w r)).1.made) := by
+    Inv outs (serve r (answersFor w r)).1
+      ((w.after r (serve r (answersFor w r)).1).afterK k (callRes true w (serve r (answersFor w r)).2.2))
+      (nextSt s (resK k (callRes true w (serve r (answersFor w r)).2.2)) (serve r (answersFor w r)).1.made) := by
   obtain ⟨herr, hmade, houts, halive, hstored, hshape⟩ := h
   have hnext := next_eq houts
   have hfix := statusCode_fixed w.next
@@ -377,31 +378,40 @@ theorem call_step (outs : List Outcome) (r : R) (w : World) (s : Spec.Reconnect.
       have hc' : (outcomeAt outs (s.a + 1)).connects = true := by rw [← hnext]; exact hc
       simp only [answersFor, hst, hc, if_true, List.nil_append, hs]
       refine ⟨?_, ?_⟩
-      · simp [callClauses, callRes, hmade, hlive, hc', isResp]
-      · exact ⟨herr, by simp [nextSt], by simp [World.after, houts, hmade, List.tail_drop, nextSt],
-          by simp [World.after, hc, nextSt, callRes], by simp,
-          Or.inr ⟨_, rfl, Or.inl (by simp [World.after, hc])⟩⟩
+      · cases k <;> simp [callClauses, callRes, resK, served, hmade, hlive, hc']
+      · refine ⟨herr, by simp [nextSt], ?_, ?_, by simp, ?_⟩
+        · cases k <;> simp [World.after, World.afterK, callRes, houts, hmade, List.tail_drop, nextSt]
+        · cases k <;> simp [World.after, World.afterK, hc, nextSt, callRes, resK, hlive]
+        · cases k
+          · exact Or.inr ⟨_, rfl, Or.inl (by simp [World.after, World.afterK, hc])⟩
+          · exact Or.inr ⟨_, rfl, Or.inl (by simp [World.after, World.afterK, hc])⟩
+          · exact Or.inr ⟨_, rfl, Or.inr (by simp [World.after, World.afterK, callRes])⟩
     · have hs := serve_idle_fails r (r.made + 1) [.ok] herr hst hstored
       have hc' : (outcomeAt outs (s.a + 1)).connects = false := by
         rw [← hnext]; simpa using hc
       simp only [answersFor, hst, hc, Bool.false_eq_true, if_false, List.nil_append, hs]
       refine ⟨?_, ?_⟩
-      · simp only [callClauses, callRes, errorOf, hfix]
+      · simp only [callClauses, callRes, errorOf, hfix, resK]
         by_cases hr : w.next = .refuse <;>
-          simp [hr, hmade, hlive, hc', isResp, anyConnects_one, unavailable]
-      · exact ⟨herr, by simp [nextSt], by simp [World.after, houts, hmade, List.tail_drop, nextSt],
-          by simp [World.after, hc, nextSt, callRes], hstored,
-          Or.inl ⟨rfl, by simp [World.after, hc]⟩⟩
+          simp [hr, hmade, hlive, hc', served, anyConnects_one, unavailable]
+      · refine ⟨herr, by simp [nextSt], ?_, ?_, hstored, ?_⟩
+        · cases k <;> simp [World.after, World.afterK, callRes, houts, hmade, List.tail_drop, nextSt]
+        · cases k <;> simp [World.after, World.afterK, hc, nextSt, callRes, resK]
+        · exact Or.inl ⟨rfl, by cases k <;> simp [World.after, World.afterK, callRes, hc]⟩
   · -- connected, and that connection is alive
     have hlive : s.live = some c := by rw [← halive]; exact hal
     have hs := serve_connected_ok r c
       [Ans.ok, if w.next.connects then Ans.ok else Ans.err (r.made + 1), Ans.ok] herr hst
     simp only [answersFor, hst, hal, if_true, List.cons_append, List.nil_append, hs]
     refine ⟨?_, ?_⟩
-    · simp [callClauses, callRes, hmade, hlive, isResp]
-    · exact ⟨herr, by simp [nextSt, hmade], by simp [World.after, houts, nextSt, hmade],
-        by simp [World.after, nextSt, callRes, hal], by simp,
-        Or.inr ⟨c, by simp, Or.inl (by simp [World.after, hal])⟩⟩
+    · cases k <;> simp [callClauses, callRes, resK, served, hmade, hlive]
+    · refine ⟨herr, by simp [nextSt, hmade], ?_, ?_, by simp, ?_⟩
+      · cases k <;> simp [World.after, World.afterK, callRes, houts, nextSt, hmade]
+      · cases k <;> simp [World.after, World.afterK, nextSt, callRes, resK, hal, hlive]
+      · cases k
+        · exact Or.inr ⟨c, by simp, Or.inl (by simp [World.after, World.afterK, hal])⟩
+        · exact Or.inr ⟨c, by simp, Or.inl (by simp [World.after, World.afterK, hal])⟩
+        · exact Or.inr ⟨c, by simp, Or.inr (by simp [World.after, World.afterK, callRes])⟩
   · -- connected, but the peer dropped that connection
     have hlive : s.live = none := by rw [← halive]; exact hal
     have hne : ¬ (w.alive = some c) := by simp [hal]
@@ -411,28 +421,59 @@ theorem call_step (outs : List Outcome) (r : R) (w : World) (s : Spec.Reconnect.
       simp only [answersFor, hst, hne, hc, if_true, if_false, List.cons_append,
         List.nil_append, hs]
       refine ⟨?_, ?_⟩
-      · simp [callClauses, callRes, hmade, hlive, hc', isResp]
-      · exact ⟨herr, by simp [nextSt], by simp [World.after, houts, hmade, List.tail_drop, nextSt],
-          by simp [World.after, hc, nextSt, callRes], by simp,
-          Or.inr ⟨_, rfl, Or.inl (by simp [World.after, hc])⟩⟩
+      · cases k <;> simp [callClauses, callRes, resK, served, hmade, hlive, hc']
+      · refine ⟨herr, by simp [nextSt], ?_, ?_, by simp, ?_⟩
+        · cases k <;> simp [World.after, World.afterK, callRes, houts, hmade, List.tail_drop, nextSt]
+        · cases k <;> simp [World.after, World.afterK, hc, nextSt, callRes, resK, hlive]
+        · cases k
+          · exact Or.inr ⟨_, rfl, Or.inl (by simp [World.after, World.afterK, hc])⟩
+          · exact Or.inr ⟨_, rfl, Or.inl (by simp [World.after, World.afterK, hc])⟩
+          · exact Or.inr ⟨_, rfl, Or.inr (by simp [World.after, World.afterK, callRes])⟩
     · have hs := serve_dead_fails r c 0 (r.made + 1) [.ok] herr hst
       have hc' : (outcomeAt outs (s.a + 1)).connects = false := by
         rw [← hnext]; simpa using hc
       simp only [answersFor, hst, hne, hc, Bool.false_eq_true, if_false, List.cons_append,
         List.nil_append, hs]
       refine ⟨?_, ?_⟩
-      · simp only [callClauses, callRes, errorOf, hfix]
+      · simp only [callClauses, callRes, errorOf, hfix, resK]
         by_cases hr : w.next = .refuse <;>
-          simp [hr, hmade, hlive, hc', isResp, anyConnects_one, unavailable]
-      · exact ⟨herr, by simp [nextSt], by simp [World.after, houts, hmade, List.tail_drop, nextSt],
-          by simp [World.after, hc, nextSt, callRes], by simp,
-          Or.inl ⟨rfl, by simp [World.after, hc]⟩⟩
+          simp [hr, hmade, hlive, hc', served, anyConnects_one, unavailable]
+      · refine ⟨herr, by simp [nextSt], ?_, ?_, by simp, ?_⟩
+        · cases k <;> simp [World.after, World.afterK, callRes, houts, hmade, List.tail_drop, nextSt]
+        · cases k <;> simp [World.after, World.afterK, hc, nextSt, callRes, resK]
+        · exact Or.inl ⟨rfl, by cases k <;> simp [World.after, World.afterK, callRes, hc]⟩
+
+/-- An ordinary call: `resK .plain` and `afterK .plain` change nothing. -/
+theorem resK_plain (res : CallRes) : resK .plain res = res := by cases res <;> rfl
+
+theorem afterK_plain (w : World) (res : CallRes) : w.afterK .plain res = w := by
+  cases res <;> rfl
+
+theorem call_step (outs : List Outcome) (r : R) (w : World) (s : Spec.Reconnect.St)
+    (h : Inv outs r w s) :
+    (callClauses outs s .plain (callRes true w (serve r (answersFor w r)).2.2)
+        (serve r (answersFor w r)).1.made).all (·.2) = true ∧
+    Inv outs (serve r (answersFor w r)).1 (w.after r (serve r (answersFor w r)).1)
+      (nextSt s (callRes true w (serve r (answersFor w r)).2.2) (serve r (answersFor w r)).1.made) := by
+  have := callK_step outs r w s .plain h
+  simpa only [resK_plain, afterK_plain] using this
 
 end Reconnect.E2E
 
 namespace Reconnect.E2E
 open ConnScript
-open Spec.Reconnect (outcomeAt anyConnects callClauses nextSt evClauses liveAfter clauses holds isResp)
+open Spec.Reconnect (outcomeAt anyConnects callClauses nextSt evClauses liveAfter clauses holds isResp served)
+
+theorem callClauses_mono {outs : List Outcome} {s : Spec.Reconnect.St} {k : CallKind} {res : CallRes}
+    {a' : Nat} (h : (callClauses outs s k res a').all (·.2) = true) : s.a ≤ a' := by
+  simp only [callClauses, List.all_cons, Bool.and_eq_true, decide_eq_true_eq] at h
+  exact h.2.1
+
+/-- The oracle's next state after an ordinary call depends on the state before only through a
+deadline expiry, which the model never produces for such a call. -/
+theorem nextSt_callRes (s1 s2 : Spec.Reconnect.St) (fixed : Bool) (w : World) (res : Res) (a : Nat) :
+    nextSt s1 (callRes fixed w res) a = nextSt s2 (callRes fixed w res) a := by
+  cases res <;> rfl
 
 theorem runOps_ok (outs : List Outcome) (ops : List Op) :
     ∀ (r : R) (w : World) (s : Spec.Reconnect.St), Inv outs r w s →
@@ -454,6 +495,30 @@ theorem runOps_ok (outs : List Outcome) (ops : List Op) :
       have hstep := call_step outs r w s h
       simp only [runOps, evClauses, List.all_append, Bool.and_eq_true]
       exact ⟨hstep.1, ih _ _ _ hstep.2⟩
+    | callZero =>
+      have hstep := callK_step outs r w s .zeroDeadline h
+      simp only [runOps, callK, evClauses, List.all_append, Bool.and_eq_true]
+      exact ⟨hstep.1, ih _ _ _ hstep.2⟩
+    | callDie =>
+      have hstep := callK_step outs r w s .peerDies h
+      simp only [runOps, callK, evClauses, List.all_append, Bool.and_eq_true]
+      exact ⟨hstep.1, ih _ _ _ hstep.2⟩
+    | pair =>
+      have h1 := call_step outs r w s h
+      have h2 := call_step outs _ _ _ h1.2
+      have m1 := callClauses_mono h1.1
+      have m2 := callClauses_mono h2.1
+      simp only [nextSt] at m2
+      simp only [runOps, evClauses, List.all_cons, Bool.and_eq_true]
+      refine ⟨?_, ih _ _ _ ?_⟩
+      · unfold Spec.Reconnect.pairOk
+        rw [List.any_eq_true]
+        refine ⟨(serve r (answersFor w r)).1.made - s.a, by simp; omega, ?_⟩
+        have : s.a + ((serve r (answersFor w r)).1.made - s.a) = (serve r (answersFor w r)).1.made := by omega
+        rw [this, List.all_append, Bool.and_eq_true]
+        exact ⟨h1.1, h2.1⟩
+      · rw [nextSt_callRes _ (nextSt s (callRes true w (serve r (answersFor w r)).2.2) (serve r (answersFor w r)).1.made)]
+        exact h2.2
 
 theorem head_eq_outcomeAt (outs : List Outcome) :
     ({ outcomes := outs, alive := none } : World).next = outcomeAt outs 1 := by
